@@ -213,6 +213,11 @@ def eval_case(c):
                 V('viscosity-' + i_.split(':')[0], 'reference viscosity law: ' + i_)
             if not (close(va[0], v1, 4) and close(va[1], v2, 4)):
                 V('viscosity-array', 'array call differs from scalar call')
+            from harness.shapes import shape_call
+            Tq = np.array([T, T * fac, T * 1.01, T * 0.99]); Pq = np.array([P, P, P * 1.1, P * 0.9])
+            for fn_, a_ in ((vm.reference, (Tq, Pq, 1e21, 1600., E, Vv)), (vm.arrhenius, (Tq, Pq, coeff, False, 1., 1., 1e-3, 2., E, Vv)), (vm.arrhenius, (Tq, Pq, coeff, True, 1., 1., 1e-3, 2., E, Vv))):
+                for i_ in shape_call(fn_, a_, [0, 1], counters=cnt):
+                    V('viscosity-' + i_.split(':')[0], f'{fn_.__name__}: ' + i_, T=T, P=P)
             cst = vm.constant(T, P, 3e19)
             if cst != 3e19:
                 V('viscosity-constant', f'constant model returned {cst!r}')
@@ -268,6 +273,11 @@ def eval_case(c):
                 V('melt-henning-' + i_.split(':')[0], 'henning law: ' + i_, **tag)
             if not close(va, vis, 4):
                 V('melt-henning-array', 'array call differs from scalar calls', **tag)
+            from harness.shapes import shape_call
+            for i_ in shape_call(mm.henning, (phis, T, pre_v, liq_v, pre_s, sol, liqd, liq_s, cm_, cw) + tuple(hp), [0], counters=cnt):
+                V('melt-henning-' + i_.split(':')[0], 'henning law: ' + i_, **tag)
+            for i_ in shape_call(mm.henning, (phis, np.full(len(phis), T), pre_v, liq_v, pre_s, sol, liqd, liq_s, cm_, cw) + tuple(hp), [0, 1], counters=cnt):
+                V('melt-henning-' + i_.split(':')[0], 'henning law (temperature array): ' + i_, **tag)
             # spohn and off laws
             Ts = float(rng.uniform(900, 2500))
             sp = () if d % 2 == 0 else tuple(float(x * rng.uniform(0.5, 1.5)) for x in (27000.0, 1.0, 82000.0, 40.6))
